@@ -10,7 +10,7 @@ use flipdot_testing::{Odk, VirtualSignBus};
 
 use crate::core::{stable_hash, Cx, Scenario, Tier, Violation};
 use crate::gens::{self, show, show_opt, to_static};
-use crate::port::{BaudRate2, CfgCall, CfgFail, Device, PortOp, ScriptWire, SimClock, SimPort, SimSettings};
+use crate::port::{BaudRate2, CfgCall, CfgFail, Device, PortOp, ScriptWire, SharedWire, SimClock, SimPort, SimSettings};
 
 type Port = SimPort<ScriptWire>;
 
@@ -23,11 +23,17 @@ impl Drop for SleepGuard {
     }
 }
 
+thread_local! {
+    /// Total simulated nanoseconds slept through the seam on this thread.
+    pub static SLEPT_NS: std::cell::Cell<u64> = const { std::cell::Cell::new(0) };
+}
+
 pub fn install_sleep(clock: &SimClock, cx: &Cx) -> SleepGuard {
     let c = clock.clone();
     let cx = cx.clone();
     let _ = set_sleep(Some(SleepFn(Box::new(move |d: Duration| {
         c.advance(d.as_nanos() as u64);
+        SLEPT_NS.with(|s| s.set(s.get() + d.as_nanos() as u64));
         cx.add_sim_ns(d.as_nanos() as u64);
         cx.hash_event("sleep", &(d.as_nanos() as u64));
     }))));
@@ -122,23 +128,40 @@ fn expected_reply(line: &[u8]) -> Option<Message<'static>> {
 
 pub struct C16;
 
-struct Exch {
+/// One step of a conversation on one bus.
+#[derive(Clone, Debug)]
+struct StepPlan {
+    m: Message<'static>,
+    /// what the far end puts on the line for this step (may be empty)
+    line: Vec<u8>,
+    kind: &'static str,
+    /// hard failure at this port operation, counted from the start of the step
+    fail_rel: Option<usize>,
+    only_bytes_judged: bool,
+}
+
+#[derive(Debug)]
+struct StepLog {
     result: Result<Option<Message<'static>>, String>,
     ops: Vec<PortOp>,
     written: Vec<u8>,
-    consumed: usize,
+    pos_before: usize,
+    pos_after: usize,
+    /// the port's incoming bytes as they were when the step ran
+    incoming: Vec<u8>,
     fired: bool,
 }
 
-fn one_exchange(cx: &Cx, m: &Message<'static>, incoming: Vec<u8>, eof: bool, faults: (bool, u64, bool), fail_at: Option<usize>) -> Result<Exch, Violation> {
+/// Runs the plan on ONE bus (so that anything a failed exchange leaves behind meets the next one).
+fn run_plan(cx: &Cx, plan: &[StepPlan], eof: bool, benign: (bool, u64, bool)) -> Result<Vec<StepLog>, Violation> {
     let clock = SimClock::default();
-    let mut wire = ScriptWire::new(cx, clock.clone(), incoming);
+    let mut wire = ScriptWire::new(cx, clock.clone(), vec![]);
     wire.timeout_when_empty = !eof;
-    wire.frag = faults.0;
-    wire.eintr_den = faults.1;
-    wire.short_writes = faults.2;
-    wire.fail_at = fail_at;
-    let port = SimPort::new(wire, Device::default_odd());
+    wire.frag = benign.0;
+    wire.eintr_den = benign.1;
+    wire.short_writes = benign.2;
+    let shared = SharedWire::new(wire);
+    let port = SimPort::new(shared.clone(), Device::default_odd());
     let mut bus = match SerialSignBus::try_new(port) {
         Ok(b) => b,
         Err(e) => {
@@ -147,19 +170,111 @@ fn one_exchange(cx: &Cx, m: &Message<'static>, incoming: Vec<u8>, eof: bool, fau
         }
     };
     let _g = install_sleep(&clock, cx);
-    let r = bus.process_message(m.clone());
-    let w = &bus.port().wire;
-    let fired = fail_at.map(|j| w.op_index > j).unwrap_or(false);
-    Ok(Exch {
-        result: match r {
-            Ok(x) => Ok(x.map(|x| to_static(&x))),
-            Err(e) => Err(e.to_string()),
-        },
-        ops: w.ops.clone(),
-        written: w.written.clone(),
-        consumed: w.pos,
-        fired,
-    })
+    let mut logs = Vec::new();
+    for st in plan {
+        let (ops0, w0, pos0, fail_abs) = {
+            let mut w = shared.lock();
+            w.incoming.extend_from_slice(&st.line);
+            let fail_abs = st.fail_rel.map(|r| w.op_index + r);
+            w.fail_at = fail_abs;
+            (w.ops.len(), w.written.len(), w.pos, fail_abs)
+        };
+        let r = bus.process_message(st.m.clone());
+        let w = shared.lock();
+        logs.push(StepLog {
+            result: match r {
+                Ok(x) => Ok(x.map(|x| to_static(&x))),
+                Err(e) => Err(e.to_string()),
+            },
+            ops: w.ops[ops0..].to_vec(),
+            written: w.written[w0..].to_vec(),
+            pos_before: pos0,
+            pos_after: w.pos,
+            incoming: w.incoming.clone(),
+            fired: fail_abs.map(|j| w.op_index > j).unwrap_or(false),
+        });
+    }
+    Ok(logs)
+}
+
+/// Judges one step against the property, from the port's log only.
+fn judge_step(cx: &Cx, i: usize, st: &StepPlan, lg: &StepLog) {
+    let m = &st.m;
+    let want_bytes = Frame::from(m.clone()).to_bytes_with_newline();
+    let due = reply_due(m);
+    if lg.fired {
+        cx.probe("fault_at_port_operation");
+        if lg.result.is_ok() {
+            cx.fail("C16/failure-swallowed", format!("step #{i} {}: a port operation failed but the bus returned {:?}", show(m), lg.result.as_ref().map(show_opt)));
+            return;
+        }
+        if !want_bytes.starts_with(&lg.written) {
+            cx.fail("C16/wrong-bytes-written", format!("step #{i} {}: after a port failure the port holds {:?}", show(m), String::from_utf8_lossy(&lg.written)));
+        }
+        return;
+    }
+    if lg.written != want_bytes {
+        cx.fail(
+            "C16/wrong-bytes-written",
+            format!("step #{i} {}: wrote {:?}, the frame encoding with CRLF is {:?}", show(m), String::from_utf8_lossy(&lg.written), String::from_utf8_lossy(&want_bytes)),
+        );
+        return;
+    }
+    if st.only_bytes_judged {
+        return;
+    }
+    let reads = lg.ops.iter().filter(|o| matches!(o, PortOp::Read { .. })).count();
+    if due && reads == 0 {
+        cx.fail("C16/no-read-when-reply-due", format!("step #{i} {} expects a reply but the port was never read", show(m)));
+        return;
+    }
+    if !due && (reads > 0 || lg.pos_after != lg.pos_before) {
+        cx.fail(
+            "C16/read-when-no-reply-due",
+            format!("step #{i} {} expects no reply but the port was read {} time(s) ({} byte(s) taken)", show(m), reads, lg.pos_after - lg.pos_before),
+        );
+        return;
+    }
+    if let Some(fr) = lg.ops.iter().position(|o| matches!(o, PortOp::Read { .. })) {
+        if lg.ops[fr..].iter().any(|o| matches!(o, PortOp::Write { .. })) {
+            cx.fail("C16/write-after-read", format!("step #{i}: the port was written again after the reply had been read"));
+            return;
+        }
+    }
+    if !due {
+        if !matches!(lg.result, Ok(None)) {
+            cx.fail("C16/wrong-result", format!("step #{i} {} expects no reply but the bus returned {:?}", show(m), lg.result.as_ref().map(show_opt)));
+        }
+        return;
+    }
+    // exactly one line: up to and including the first LF at or after the previous position
+    let rest = &lg.incoming[lg.pos_before..];
+    let (line, complete) = match rest.iter().position(|b| *b == b'\n') {
+        Some(k) => (&rest[..=k], true),
+        None => (rest, false),
+    };
+    if lg.pos_after - lg.pos_before != line.len() {
+        cx.fail(
+            "C16/reply-consumption",
+            format!("step #{i} {}: {} byte(s) were taken from the port, the reply line has {}", show(m), lg.pos_after - lg.pos_before, line.len()),
+        );
+        return;
+    }
+    if !line.is_empty() && lg.pos_before + line.len() < lg.incoming.len() {
+        cx.probe("bytes_follow_the_reply_line");
+    }
+    let want = if complete { expected_reply(line) } else { None };
+    match (&lg.result, &want) {
+        (Ok(Some(got)), Some(w)) if got == w => {}
+        (Err(_), None) => {}
+        (got, w) => cx.fail(
+            "C16/wrong-result",
+            format!("step #{i} {} with reply line {:?}: returned {:?}, wanted {}", show(m), String::from_utf8_lossy(line), got.as_ref().map(show_opt), match w {
+                Some(w) => format!("Ok(Some({}))", show(w)),
+                None => "an error".to_string(),
+            }),
+        ),
+    }
 }
 
 impl Scenario for C16 {
@@ -176,110 +291,67 @@ impl Scenario for C16 {
         }
     }
     fn describe(&self) -> &'static str {
-        "real SerialSignBus (built by try_new) over a simulated port: every message kind x reply-line kind (known, unknown, malformed, bad checksum, wrong length, timeout, EOF) with fragmented reads, EINTR and short writes; then a hard failure injected at every port operation index in turn; judged on the port's operation log"
+        "real SerialSignBus (built by try_new) over a simulated port: conversations of 1-5 messages on ONE bus (every message kind x reply-line kind: known, unknown, malformed, bad checksum, wrong length, timeout, EOF; earlier steps may suffer a port failure, so leftovers meet the next exchange) with fragmented reads, EINTR and short writes; then for the last message a hard failure injected at every port operation index in turn; every step judged on the port's operation log"
     }
     fn run(&self, cx: &Cx) -> Result<(), Violation> {
-        let looks_like_hello = cx.chance(1, 40);
-        let m: Message<'static> = if looks_like_hello {
-            cx.probe("unknown_that_looks_like_hello");
-            Message::Unknown(Frame::from(Message::Hello(gens::address(cx))))
-        } else {
-            any_message(cx)
-        };
-        let (line, kind) = reply_line(cx);
-        let eof = kind == "empty-eof";
-        let mut incoming = line.clone();
-        if !line.is_empty() {
-            incoming.extend_from_slice(SENTINEL);
+        let nsteps = 1 + cx.draw(5) as usize;
+        let eof = cx.chance(1, 4);
+        let mut plan: Vec<StepPlan> = Vec::new();
+        for k in 0..nsteps {
+            let looks_like_hello = cx.chance(1, 40);
+            let m: Message<'static> = if looks_like_hello {
+                cx.probe("unknown_that_looks_like_hello");
+                Message::Unknown(Frame::from(Message::Hello(gens::address(cx))))
+            } else {
+                any_message(cx)
+            };
+            let due = reply_due(&m);
+            let (mut line, kind) = if due || cx.chance(1, 8) { reply_line(cx) } else { (vec![], "none") };
+            if !line.is_empty() && cx.chance(1, 2) {
+                line.extend_from_slice(SENTINEL);
+            }
+            // earlier steps may hit a port failure; the last one is enumerated below
+            let fail_rel = if k + 1 < nsteps && cx.chance(1, 4) { Some(cx.draw(48) as usize) } else { None };
+            cx.probe(&format!("{}:{}", msg_kind(&m), if due { kind } else { "no-reply-due" }));
+            cx.note(|| format!("step #{k}: {}  far end sends [{kind}] {:?}  failure at op {:?}", show(&m), String::from_utf8_lossy(&line), fail_rel));
+            plan.push(StepPlan { m, line, kind, fail_rel, only_bytes_judged: looks_like_hello });
         }
-        let due = reply_due(&m);
-        cx.event("case", &(stable_hash(&m), kind));
-        cx.probe(&format!("{}:{}", msg_kind(&m), if due { kind } else { "no-reply-due" }));
-        cx.note(|| format!("message {}  reply line [{kind}] {:?}", show(&m), String::from_utf8_lossy(&line)));
+        cx.event("plan", &plan.iter().map(|s| (stable_hash(&s.m), s.kind, s.fail_rel)).collect::<Vec<_>>());
         cx.set_nontrivial();
-        let want_bytes = Frame::from(m.clone()).to_bytes_with_newline();
-        let faults = (cx.chance(1, 2), *cx.pick(&[0u64, 6, 24]), cx.chance(1, 2));
-
-        // ---- pass 1: benign delivery faults only -------------------------------------------
-        let e = one_exchange(cx, &m, incoming.clone(), eof, faults, None)?;
-        if e.written != want_bytes {
-            cx.fail(
-                "C16/wrong-bytes-written",
-                format!("wrote {:?}, the frame encoding with CRLF is {:?}", String::from_utf8_lossy(&e.written), String::from_utf8_lossy(&want_bytes)),
-            );
-            return cx.verdict();
+        if plan.len() >= 2 && plan[..plan.len() - 1].iter().any(|s| s.fail_rel.is_some()) {
+            cx.probe("exchange_after_an_earlier_failure");
         }
-        let reads = e.ops.iter().filter(|o| matches!(o, PortOp::Read { .. })).count();
-        // An Unknown message that wraps a hello frame is outside what the property fixes: only its bytes are judged.
-        if !looks_like_hello {
-            if due && reads == 0 {
-                cx.fail("C16/no-read-when-reply-due", format!("{} expects a reply but the port was never read", show(&m)));
-                return cx.verdict();
-            }
-            if !due && reads > 0 {
-                cx.fail("C16/read-when-no-reply-due", format!("{} expects no reply but the port was read {} time(s)", show(&m), reads));
-                return cx.verdict();
-            }
-            // a write after the first read would be a second frame
-            let first_read = e.ops.iter().position(|o| matches!(o, PortOp::Read { .. }));
-            if let Some(fr) = first_read {
-                if e.ops[fr..].iter().any(|o| matches!(o, PortOp::Write { .. })) {
-                    cx.fail("C16/write-after-read", "the port was written again after the reply had been read".to_string());
-                    return cx.verdict();
-                }
-            }
-            if due {
-                if !line.is_empty() && e.consumed != line.len() {
-                    cx.fail(
-                        "C16/reply-consumption",
-                        format!("{} bytes were taken from the port, the reply line has {} (a sentinel line follows it)", e.consumed, line.len()),
-                    );
-                    return cx.verdict();
-                }
-                let want = expected_reply(&line);
-                match (&e.result, &want) {
-                    (Ok(Some(got)), Some(w)) if got == w => {}
-                    (Err(_), None) => {}
-                    (got, w) => {
-                        cx.fail(
-                            "C16/wrong-result",
-                            format!("{} with reply line [{kind}]: returned {:?}, wanted {}", show(&m), got.as_ref().map(show_opt), match w {
-                                Some(w) => format!("Ok(Some({}))", show(w)),
-                                None => "an error".to_string(),
-                            }),
-                        );
-                        return cx.verdict();
-                    }
-                }
-            } else if !matches!(e.result, Ok(None)) {
-                cx.fail("C16/wrong-result", format!("{} expects no reply but the bus returned {:?}", show(&m), e.result.as_ref().map(show_opt)));
-                return cx.verdict();
+        let benign = (cx.chance(1, 2), *cx.pick(&[0u64, 6, 24]), cx.chance(1, 2));
+
+        // ---- pass 1: benign delivery faults drawn from the tape ------------------------------
+        let logs = run_plan(cx, &plan, eof, benign)?;
+        for (i, (st, lg)) in plan.iter().zip(logs.iter()).enumerate() {
+            judge_step(cx, i, st, lg);
+            cx.verdict()?;
+            if lg.result.is_err() && i + 1 < plan.len() {
+                cx.probe("step_follows_a_failed_step");
             }
         }
 
-        // ---- pass 2: a hard failure at each port operation index ---------------------------
-        let base = one_exchange(cx, &m, incoming.clone(), eof, (false, 0, false), None)?;
-        let nops = base.ops.len();
+        // ---- pass 2: a hard failure at each port operation of the last step ------------------
+        let base = run_plan(cx, &plan, eof, (false, 0, false))?;
+        let last = plan.len() - 1;
+        let nops = base[last].ops.len();
         let step = if nops > 60 { 1 + cx.draw(9) as usize } else { 1 };
         let mut j = if step > 1 { cx.draw(step as u64) as usize } else { 0 };
         while j < nops {
-            let ej = one_exchange(cx, &m, incoming.clone(), eof, (false, 0, false), Some(j))?;
-            if !ej.fired {
+            let mut p2 = plan.clone();
+            p2[last].fail_rel = Some(j);
+            let lj = run_plan(cx, &p2, eof, (false, 0, false))?;
+            if !lj[last].fired {
                 cx.fail("C16/harness-fault-not-reached", format!("fault at op {j} of {nops} did not fire"));
                 return cx.verdict();
             }
             cx.probe("fault_at_each_op_index");
-            if ej.result.is_ok() {
-                cx.fail(
-                    "C16/failure-swallowed",
-                    format!("port operation #{j} ({}) failed but the bus returned {:?}", if matches!(base.ops[j], PortOp::Write { .. }) { "write" } else { "read" }, ej.result.as_ref().map(show_opt)),
-                );
-                return cx.verdict();
+            for (i, (st, lg)) in p2.iter().zip(lj.iter()).enumerate() {
+                judge_step(cx, i, st, lg);
             }
-            if !want_bytes.starts_with(&ej.written) {
-                cx.fail("C16/wrong-bytes-written", format!("after a failure at op {j} the port holds {:?}", String::from_utf8_lossy(&ej.written)));
-                return cx.verdict();
-            }
+            cx.verdict()?;
             j += step;
         }
         cx.verdict()
@@ -340,7 +412,13 @@ impl Scenario for C18 {
         let mut wire = ScriptWire::new(cx, clock.clone(), incoming);
         wire.frag = cx.chance(1, 2);
         wire.short_writes = cx.chance(1, 2);
-        let port: Port = SimPort::new(wire, Device::default_odd());
+        // The far end takes time to answer: per-read latency on the simulated clock, and (rarely,
+        // because it costs real time) a few real milliseconds before a reply, since the code under
+        // test can read the real monotonic clock without going through any seam.
+        wire.sim_read_latency_ns = *cx.pick(&[0u64, 520_833, 5_000_000]);
+        let real_latency = cx.chance(1, 48);
+        let shared = SharedWire::new(wire);
+        let port = SimPort::new(shared.clone(), Device::default_odd());
         let mut bus = match SerialSignBus::try_new(port) {
             Ok(b) => b,
             Err(e) => {
@@ -357,10 +435,16 @@ impl Scenario for C18 {
         }
         let mut spans: Vec<Span> = Vec::new();
         for (i, m) in msgs.iter().enumerate() {
-            let o0 = bus.port().wire.ops.len();
+            let o0 = shared.lock().ops.len();
+            if real_latency && matches!(&replies[i], Some(Message::ReportState(_, State::PageLoadInProgress | State::PageShowInProgress))) {
+                shared.lock().real_delay_next_read = Some(Duration::from_millis(2 + cx.draw(3)));
+                cx.probe("reply_with_real_latency");
+            }
             let start = (clock.now(), Instant::now());
+            let slept0 = SLEPT_NS.with(|s| s.get());
             let r = bus.process_message(m.clone());
             let end = (clock.now(), Instant::now());
+            let slept = SLEPT_NS.with(|s| s.get()) - slept0;
             let paced = matches!(m, Message::SendData(..))
                 || matches!(&replies[i], Some(Message::ReportState(_, State::PageLoadInProgress | State::PageShowInProgress)));
             if r.is_err() {
@@ -378,7 +462,9 @@ impl Scenario for C18 {
             // noise, so an exchange that looks slow is repeated (same message, same reply) and
             // the minimum counts.
             if !paced {
-                let mut best = (end.0 - start.0) as u128 + end.1.duration_since(start.1).as_nanos();
+                // delay added by the bus = what it slept (simulated) + real time spent in the call;
+                // the far end's simulated latency is the port's time, not a delay of the bus
+                let mut best = u128::from(slept) + end.1.duration_since(start.1).as_nanos();
                 let mut tries = 1;
                 while best >= u128::from(30 * MS) && tries < 5 {
                     tries += 1;
@@ -396,10 +482,11 @@ impl Scenario for C18 {
                     return cx.verdict();
                 }
             }
-            spans.push(Span { ops: (o0, bus.port().wire.ops.len()), start, end });
+            spans.push(Span { ops: (o0, shared.lock().ops.len()), start, end });
         }
         // (a) and (b): lower bounds at the port boundaries
-        let wire = &bus.port().wire;
+        let wire_guard = shared.lock();
+        let wire = &*wire_guard;
         let op_end = |k: usize| -> (u64, Instant) {
             let ns = match &wire.ops[k] {
                 PortOp::Write { end_ns, .. } | PortOp::Read { end_ns, .. } => *end_ns,
@@ -474,9 +561,9 @@ fn measure_single(cx: &Cx, m: &Message<'static>, reply: &Option<Message<'static>
     let port: Port = SimPort::new(wire, Device::default_odd());
     let mut bus = SerialSignBus::try_new(port).ok()?;
     let _g = install_sleep(&clock, cx);
-    let s = (clock.now(), Instant::now());
+    let s = (SLEPT_NS.with(|s| s.get()), Instant::now());
     let r = bus.process_message(m.clone());
-    let e = (clock.now(), Instant::now());
+    let e = (SLEPT_NS.with(|s| s.get()), Instant::now());
     r.ok()?;
     Some(u128::from(e.0 - s.0) + e.1.duration_since(s.1).as_nanos())
 }
@@ -525,9 +612,11 @@ impl Scenario for C20 {
         let cs = take(4) as u8;
         let bi = take(12) as usize;
         let baud = if BAUDS[bi] == 0 { *cx.pick(&[14400usize, 1, 250000, 19201, 19199, 0]) } else { BAUDS[bi] };
-        let prior = SimSettings { baud: BaudRate2(baud), char_size: cs, parity, stop_bits: stop, flow, fail_set_baud: false };
+        let prior = SimSettings { baud: BaudRate2(baud), char_size: cs, parity, stop_bits: stop, flow, fail_set_baud: false, fail_kind: 0 };
         let mut dev = Device::new(prior);
         dev.fail = fail;
+        dev.fail_kind = cx.draw(crate::port::ERR_KINDS.len() as u64) as usize;
+        let want_kind = crate::port::ERR_KINDS[dev.fail_kind];
         dev.timeout = Duration::from_millis(*cx.pick(&[1u64, 0, 5000, 10000, 77]));
         let prior_timeout = dev.timeout;
         let caller_timeout = Duration::from_millis(*cx.pick(&[5000u64, 1, 250, 10_000, 60_000, 0]));
@@ -535,6 +624,9 @@ impl Scenario for C20 {
         cx.note(|| format!("prior {prior:?}, entry {}, failure at {fail:?}", ["configure_port", "SerialSignBus::try_new", "Odk::try_new"][entry as usize]));
         cx.set_nontrivial();
         cx.probe(&format!("entry{entry}:{fail:?}"));
+        if fail != CfgFail::None {
+            cx.probe(&format!("refusal_kind:{want_kind:?}"));
+        }
         let wire = ScriptWire::new(cx, SimClock::default(), vec![]);
         let mut port = SimPort::new(wire, dev);
         // run the entry point; get back (result is ok?, error kind, device state)
@@ -586,12 +678,6 @@ impl Scenario for C20 {
                 cx.fail("C20/failure-swallowed", format!("entry {entry}: the port refused at {fail:?} but the constructor returned Ok"));
                 return cx.verdict();
             }
-            let want_kind = match fail {
-                CfgFail::ReadSettings => serial_core::ErrorKind::NoDevice,
-                CfgFail::SetBaudRate => serial_core::ErrorKind::InvalidInput,
-                CfgFail::WriteSettings => serial_core::ErrorKind::Io(std::io::ErrorKind::PermissionDenied),
-                _ => serial_core::ErrorKind::Io(std::io::ErrorKind::Unsupported),
-            };
             if err != Some(want_kind) {
                 cx.fail("C20/wrong-error", format!("entry {entry}: the port refused at {fail:?} ({want_kind:?}) but the error returned is {err:?}"));
                 return cx.verdict();
